@@ -2,7 +2,7 @@
 import refcheck
 
 ECOS = ["semver", "npm", "cargo", "hex", "golang", "nuget"]
-IDS = ["0", "1", "2", "10", "11", "123456789012345678", "alpha", "beta", "rc", "a", "A", "b", "B", "-5", "-", "a-b", "0a", "x", "X", "alpha1", "1a", "Rc"]
+IDS = ["0", "1", "2", "10", "11", "123456789012345678", "123456789012345679", "100000000000000001", "100000000000000002", "9007199254740993", "9007199254740992", "alpha", "beta", "rc", "a", "A", "b", "B", "-5", "-", "a-b", "0a", "x", "X", "alpha1", "1a", "Rc"]
 TS = ["20200101000000", "20200102000000", "20191231235959", "20200101000001"]
 REV = ["abcdef012345", "0123456789ab", "ffffffffffff"]
 def seeded(U, rnd, quick):
